@@ -33,9 +33,9 @@ Pipeline
 
 Fails closed: any clang failure, unparsable default, guard idiom of unknown shape raises ExtractError.
 """
-import collections, concurrent.futures, glob, hashlib, heapq, json, os, re, subprocess, sys, time
+import collections, concurrent.futures, glob, hashlib, heapq, json, os, re, subprocess, sys, time, zlib
 
-VERSION = "cg-15"
+VERSION = "cg-16"
 HERE = os.path.dirname(os.path.abspath(__file__))
 sys.path.insert(0, os.path.dirname(HERE))
 
@@ -260,22 +260,71 @@ def _top_statements(body):
     return out
 
 
+def _render(n, depth=0):
+    """compact source-like text of an expression (casts and parentheses dropped) - used to tell call sites apart"""
+    n = _strip(n)
+    if not isinstance(n, dict) or depth > 8:
+        return "?"
+    k = n.get("kind")
+    inner = n.get("inner") or []
+    if k == "DeclRefExpr":
+        return n["referencedDecl"].get("name", "?")
+    if k == "MemberExpr":
+        return (_render(inner[0], depth + 1) if inner else "?") + ("->" if n.get("isArrow") else ".") + n.get("name", "?")
+    if k == "ArraySubscriptExpr" and len(inner) == 2:
+        return "%s[%s]" % (_render(inner[0], depth + 1), _render(inner[1], depth + 1))
+    if k == "UnaryOperator" and inner:
+        return (_render(inner[0], depth + 1) + n.get("opcode", "")) if n.get("isPostfix") else (n.get("opcode", "") + _render(inner[0], depth + 1))
+    if k in ("BinaryOperator", "CompoundAssignOperator") and len(inner) == 2:
+        return "(%s%s%s)" % (_render(inner[0], depth + 1), n.get("opcode", "?"), _render(inner[1], depth + 1))
+    if k in ("IntegerLiteral", "CharacterLiteral"):
+        return str(n.get("value", "?"))
+    if k == "ConstantExpr" and inner:
+        return _render(inner[0], depth + 1)
+    if k == "CallExpr" and inner:
+        return "%s(%s)" % (_render(inner[0], depth + 1), ",".join(_render(a, depth + 1) for a in inner[1:]))
+    if k == "ConditionalOperator" and len(inner) == 3:
+        return "(%s?%s:%s)" % tuple(_render(a, depth + 1) for a in inner)
+    return "<%s>" % k
+
+
+def _case_label(cs):
+    """label text of a CaseStmt/DefaultStmt, following `case A: case B:` nesting"""
+    labs = []
+    while isinstance(cs, dict) and cs.get("kind") in ("CaseStmt", "DefaultStmt"):
+        inner = cs.get("inner") or []
+        if cs["kind"] == "DefaultStmt":
+            labs.append("default")
+            cs = inner[0] if inner else None
+        else:
+            labs.append(_render(inner[0]) if inner else "?")
+            cs = inner[-1] if len(inner) > 1 else None
+    return "|".join(labs)
+
+
 def _scan_calls(st, fsum, guard):
     """record call sites / address-taken functions in statement st; guard = active guard or None"""
-    stack = [(st, 0)]
+    stack = [(st, 0, "")]
     while stack:
-        x, ld = stack.pop()
+        x, ld, lab = stack.pop()
         if not isinstance(x, dict):
             continue
         k = x.get("kind")
         if k in ("WhileStmt", "DoStmt", "ForStmt"):
             for c in x.get("inner", []):
-                stack.append((c, ld + 1))
+                stack.append((c, ld + 1, lab))
+            continue
+        if k == "CompoundStmt":
+            cur = lab                      # statements after `case X:` belong to X until the next label
+            for c in x.get("inner", []):
+                if isinstance(c, dict) and c.get("kind") in ("CaseStmt", "DefaultStmt"):
+                    cur = _case_label(c)
+                stack.append((c, ld, cur))
             continue
         if k == "CallExpr" and x.get("inner"):
             callee = _strip(x["inner"][0])
             args = x["inner"][1:]
-            site = dict(g=guard, loop=ld > 0)
+            site = dict(g=guard, loop=ld > 0, lab=lab, args=",".join(_render(a) for a in args)[:160])
             ck = callee.get("kind") if isinstance(callee, dict) else None
             if ck == "DeclRefExpr" and callee["referencedDecl"].get("kind") == "FunctionDecl":
                 site.update(t="d", n=callee["referencedDecl"]["name"])
@@ -289,7 +338,7 @@ def _scan_calls(st, fsum, guard):
                     pr = _parm_ref(a)
                     if pr:
                         pa[i] = pr
-                    stack.append((a, ld))
+                    stack.append((a, ld, lab))
                 if fa:
                     site["fargs"] = fa
                 if pa:
@@ -307,14 +356,14 @@ def _scan_calls(st, fsum, guard):
                 mem = callee.get("name") if ck == "MemberExpr" else None
                 site.update(t="i", base=base, mem=mem, sig=x["inner"][0].get("type", {}))
                 for c in (callee.get("inner", []) if isinstance(callee, dict) else []):
-                    stack.append((c, ld))
+                    stack.append((c, ld, lab))
             fsum["sites"].append(site)
             for a in args:
                 fr = _fn_ref(a)
                 if fr:
                     fsum["addr"].add(fr)
                 else:
-                    stack.append((a, ld))
+                    stack.append((a, ld, lab))
             continue
         if k == "DeclRefExpr":
             rd = x["referencedDecl"]
@@ -322,7 +371,7 @@ def _scan_calls(st, fsum, guard):
                 fsum["addr"].add(rd["name"])          # address taken (not in callee position)
             continue
         for c in x.get("inner", []) or []:
-            stack.append((c, ld))
+            stack.append((c, ld, lab))
 
 
 def summarize_tu(ast, path):
@@ -653,6 +702,7 @@ def build_graph(repo, cache=None, jobs=None, log=lambda *a: None):
     if len(roots) != 1:
         raise ExtractError("expected exactly one main() in bin/hawk.c, found %d" % len(roots))
     edges = {}      # (u,v) -> list of guard tuples or None, one per call site
+    esites = {}     # (u,v) -> list of (case label, rendered arguments), one per call site
     ekind = {}
     unresolved = set()
     kinds = collections.Counter()
@@ -721,6 +771,7 @@ def build_graph(repo, cache=None, jobs=None, log=lambda *a: None):
             for (g, gb) in targets:
                 v = node_name(g, gb)
                 edges.setdefault((u, v), []).append(tuple(site["g"]) if site["g"] else None)
+                esites.setdefault((u, v), []).append((site.get("lab", ""), site.get("args", "")))
                 ekind.setdefault((u, v), set()).add(kind)
                 if v not in seen:
                     work.append((g, gb))
@@ -816,6 +867,15 @@ def build_graph(repo, cache=None, jobs=None, log=lambda *a: None):
             path.append(prev[path[-1]])
         path.reverse()
         witnesses[name] = path           # name -> ... -> found (-> name)
+    # call sites of the residual edges, each with a stable id: a recursive call added inside an already known
+    # unguarded cycle changes this table although the set of residual groups stays the same
+    rsites = []
+    for (u, v) in sorted(residual):
+        cnt = collections.Counter(esites.get((u, v), []))
+        for (lab, args), c in sorted(cnt.items()):
+            for i in range(1, c + 1):
+                txt = "%s -> %s [%s] (%s) #%d" % (u, v, lab, args, i)
+                rsites.append((txt, zlib.crc32(txt.encode())))
     reach_bases = set(seen.values())
     all_guards = {n: f["guards"] for n, f in allf.items() if f["guards"] and n in reach_bases}
     limits_read = sorted({g[0] for gs in all_guards.values() for g in gs})
@@ -823,7 +883,7 @@ def build_graph(repo, cache=None, jobs=None, log=lambda *a: None):
     log("graph: %d functions defined, %d nodes reachable from main, %d on cycles, %d intra-SCC edges (%d guarded, %d assumed, %d residual), residual groups %s (%.1fs)" % (
         len(allf), len(reach), len(nodes), len(E), sum(1 for e in E if e[2] in real),
         sum(1 for e in E if e[2] and e[2] not in real), len(residual), sorted(residual_groups), time.time() - t0))
-    return dict(nodes=order, edges=E, residual=residual, residual_groups=residual_groups, witnesses=witnesses,
+    return dict(nodes=order, edges=E, residual=residual, residual_groups=residual_groups, witnesses=witnesses, residual_sites=rsites,
                 classes=classes, all_guards=all_guards, limits_read=limits_read, kinds=dict(kinds),
                 unresolved=sorted(unresolved), nfuncs=len(allf), nreach=len(reach),
                 assumed_used=sorted(assumed_used), assumed_stale=sorted(set(ASSUMED) - assumed_used),
@@ -922,6 +982,14 @@ def emit_lean(g, d):
     L.append(",\n".join("  [" + ", ".join(str(idx[x]) for x in g["witnesses"][k]) + "]" for k in sorted(g["witnesses"])))
     L.append("]")
     L.append("")
+    L.append("/-- every call site of a residual edge: `caller -> callee [enclosing case label] (arguments) #occurrence`, with its")
+    L.append("    id = crc32 of that text.  A recursive call added inside a known unguarded cycle shows up here. -/")
+    L.append("def residualSites : List (String × Nat) := [")
+    L.append(",\n".join("  (%s, %d)" % (lean_str(t), i) for t, i in g["residual_sites"]))
+    L.append("]")
+    L.append("")
+    L.append("def residualSiteIds : List Nat := [" + ", ".join(str(i) for _, i in g["residual_sites"]) + "]")
+    L.append("")
     L.append("/-- limits that some guard idiom of the reachable code actually reads -/")
     L.append("def limitsRead : List String := [" + ", ".join(lean_str(x) for x in g["limits_read"]) + "]")
     L.append("")
@@ -956,6 +1024,7 @@ if __name__ == "__main__":
     ap.add_argument("--out", default=os.path.join(os.path.dirname(HERE), "lean", "HawkModel", "Gen", "CallGraph.lean"))
     ap.add_argument("--cache", default="/var/tmp/hawkverif-cgcache")
     ap.add_argument("--dump", action="store_true")
+    ap.add_argument("--sites", action="store_true", help="print the residual call sites and the id list to pin in Props/C14.lean")
     ap.add_argument("--why", default=None, help="print a shortest call cycle through this function")
     a = ap.parse_args()
     g, d, ch = generate(a.repo, a.out, cache=a.cache, log=lambda *x: print(*x, file=sys.stderr))
@@ -984,6 +1053,14 @@ if __name__ == "__main__":
             path.append(src)
             for i in range(len(path) - 1):
                 print("  %s -[%s]-> %s" % (path[i], g["ekind"].get((path[i], path[i + 1]), "?"), path[i + 1]))
+    if a.sites:
+        for t, i in g["residual_sites"]:
+            print("%10d  %s" % (i, t))
+        ids = sorted(i for _, i in g["residual_sites"])
+        print("def knownResidualSiteIds : List Nat := [")
+        for j in range(0, len(ids), 8):
+            print("  " + ", ".join(str(x) for x in ids[j:j + 8]) + ("," if j + 8 < len(ids) else ""))
+        print("]")
     if a.dump:
         print("defaults", d)
         print("kinds", g["kinds"])
